@@ -21,8 +21,7 @@ def play(run, ops):
         elif op[0] == 'W':
             run.wsgi(op[1], op[2])
         elif op[0] == 'D':
-            if op[1] in run.routes:
-                run.remove_method(op[1], op[2])
+            run.remove_method(op[1], op[2])
 
 
 def gen_history(rng, stats, names=True, max_adds=8):
